@@ -1313,8 +1313,12 @@ func (r *Replica) applyWALSegmentsV3(ctx context.Context, client ReplicaClientV3
 				return err
 			}
 			expectedIndex++
-		} else if seg.Offset != offset {
-			return fmt.Errorf("missing WAL segment: expected %d/%d, got %d/%d", seg.Index, offset, seg.Index, seg.Offset)
+		} else if seg.Index != expectedIndex-1 || seg.Offset != offset {
+			// A continuation segment must belong to the WAL index that is
+			// currently being reconstructed. Comparing offsets alone accepts
+			// a segment of the next index whose first segment is missing
+			// whenever its offset happens to equal the previous WAL's length.
+			return fmt.Errorf("missing WAL segment: expected %d/%d, got %d/%d", expectedIndex-1, offset, seg.Index, seg.Offset)
 		}
 		if n, err := r.appendWALSegmentV3(ctx, client, generation, seg, f); err != nil {
 			return fmt.Errorf("write WAL segment %d/%d: %w", seg.Index, seg.Offset, err)
